@@ -23,6 +23,44 @@ func vC06NoDup(kind string, target interface{}) {
 	}
 	vAssert(vJSONValid(out), kind+": encoder output is not valid JSON")
 	vAssert(vJSONNoDup(out), kind+": encoder output carries the same member name twice")
+	// "never emits text that parses to something other than what the model holds": every vendor
+	// extension the model holds is a member of the output under exactly that name
+	for k := range vExtsOf(target) {
+		_, ok := vJSONMember(out, k)
+		vAssert(ok, kind+": a vendor extension held by the model is not a member of the encoder output under its own name")
+	}
+}
+
+func vExtsOf(v interface{}) Extensions {
+	switch t := v.(type) {
+	case *Schema:
+		return t.Extensions
+	case *Parameter:
+		return t.Extensions
+	case *Items:
+		return t.Extensions
+	case *Header:
+		return t.Extensions
+	case *Response:
+		return t.Extensions
+	case *Responses:
+		return t.Extensions
+	case *Operation:
+		return t.Extensions
+	case *PathItem:
+		return t.Extensions
+	case *Paths:
+		return t.Extensions
+	case *SecurityScheme:
+		return t.Extensions
+	case *Info:
+		return t.Extensions
+	case *Tag:
+		return t.Extensions
+	case *Swagger:
+		return t.Extensions
+	}
+	return nil
 }
 
 func vh_C06_nodup_Schema()         { var v Schema; vC06NoDup("schema", &v) }
